@@ -322,25 +322,48 @@ def parse_file(raw, blimpy_rule=True):
     return blocks, None
 
 
+TEMPLATE_USER = {'SCAN': 0, 'CAL_FREQ': 0.0, 'OBSERVER': '', 'TELESCOP': 'X', 'NRCVR': 7}
+
+
+def user_cards(k_extra, directio, template):
+    """user-supplied cards: fresh keys, configuration-owned keys (must lose), and -- with the template -- keys the
+    template also defines, with zero and empty values among them (must win over the template's)"""
+    user = {f'USR{i:02d}': (i if i % 3 else f'v{i}') for i in range(k_extra)}
+    user.update({'NBITS': 2, 'NPOL': 9, 'OBSNCHAN': 77, 'BLOCSIZE': 5, 'TBIN': 0.5, 'CHAN_BW': 1.0, 'OBSBW': -3.0, 'OBSFREQ': 1.0, 'SCANLEN': 1.0, 'NANTS': 5})
+    user['PKTIDX'] = 1000
+    if template:
+        user.update(TEMPLATE_USER)
+    if directio is not None:
+        user['DIRECTIO'] = directio
+    return user
+
+
+def kept_cards(user):
+    return {k: v for k, v in user.items() if k not in OWNED and k != 'PKTIDX'}
+
+
+def card_text(v):
+    return str(v).strip("'").strip()
+
+
 def job_record(k_extra, directio, nblocks, bpf, nant, template):
     """real record() into memory, then the real readers and an independent parser"""
     recs = []
     tag = f"C04:record:{(k_extra, directio, nblocks, bpf, nant, template)}"
     fs = MemFS()
-    user = {f'USR{i:02d}': (i if i % 3 else f'v{i}') for i in range(k_extra)}
-    user.update({'NBITS': 2, 'NPOL': 9, 'OBSNCHAN': 77, 'BLOCSIZE': 5, 'TBIN': 0.5, 'CHAN_BW': 1.0, 'OBSBW': -3.0, 'OBSFREQ': 1.0, 'SCANLEN': 1.0, 'NANTS': 5})
-    user['PKTIDX'] = 1000
-    if directio is not None:
-        user['DIRECTIO'] = directio
+    user = user_cards(k_extra, directio, template)
     user_copy = dict(user)
     pl = dict(fn='record', k_extra=k_extra, directio=directio, nblocks=nblocks, bpf=bpf, nant=nant, template=template)
     problems = []
     with volt_patches(opener=fs.open, globber=type('G', (), {'glob': staticmethod(lambda pat: fs.glob(pat))})):
         be, ant, ws = C02.build(4, 2, 2, 1, 2, nant, 8, 0, 2, bpf)
-        be.record('/mem/out', num_blocks=nblocks, length_mode='num_blocks', header_dict=user, digitize=True, verbose=False, load_template=template)
-        names = fs.names()
+        try:
+            be.record('/mem/out', num_blocks=nblocks, length_mode='num_blocks', header_dict=user, digitize=True, verbose=False, load_template=template)
+        except Exception as e:
+            problems.append(f"record raised {type(e).__name__}: {e}")
+        names = fs.names() if not problems else []      # a truncated recording is not handed to the readers
         nfiles = -(-nblocks // bpf)
-        if names != [f'/mem/out.{i:04d}.raw' for i in range(nfiles)]:
+        if not problems and names != [f'/mem/out.{i:04d}.raw' for i in range(nfiles)]:
             problems.append(f"files {names}")
         total, pkt = 0, []
         for fi, nm in enumerate(names):
@@ -365,9 +388,9 @@ def job_record(k_extra, directio, nblocks, bpf, nant, template):
                     problems.append(f"SCANLEN={h['SCANLEN']}")
                 if int(h.get('NANTS', 1)) != nant:
                     problems.append(f"NANTS={h.get('NANTS')} for {nant} antenna(s)")
-                for i in range(k_extra):
-                    if h.get(f'USR{i:02d}') != str(user_copy[f'USR{i:02d}']):
-                        problems.append(f"user card USR{i:02d} not preserved: {h.get(f'USR{i:02d}')!r}")
+                for k, v in kept_cards(user_copy).items():
+                    if h.get(k) != card_text(v):
+                        problems.append(f"user card {k}={v!r} not preserved: file has {h.get(k)!r}")
             # the library's readers on this file
             try:
                 nb = RU.get_blocks_in_file(nm)
@@ -384,23 +407,27 @@ def job_record(k_extra, directio, nblocks, bpf, nant, template):
             problems.append(f"PKTIDX sequence {pkt[:4]}")
         # whatever order the file system lists the files in
         try:
-            for perm in itertools.permutations(names):
+            for perm in (itertools.permutations(names) if names else []):
                 with shadow.patched(RU, glob=type('G', (), {'glob': staticmethod(lambda pat, perm=perm: list(perm))})):
                     tb = RU.get_total_blocks('/mem/out')
                 if tb != nblocks:
                     problems.append(f"get_total_blocks = {tb} for listing order {[p[-8:] for p in perm]}, true total {nblocks}")
                     break
+            if not names:
+                raise core.HarnessError('skip')
             if RU.get_blocks_per_file('/mem/out') != min(bpf, nblocks):
                 problems.append('get_blocks_per_file')
             rp = RU.get_raw_params('/mem/out', start_chan=0)
             if (rp['num_bits'], rp['num_pols'], rp['num_antennas'], rp['num_chans'], rp['block_size']) != (8, 2, nant, 2, be.block_size):
                 problems.append(f"get_raw_params {rp}")
+        except core.HarnessError:
+            pass
         except Exception as e:
             problems.append(f"reader raised {type(e).__name__}: {e}")
     r, _ = core.check([RV(int(not problems)) != 1])
     recs.append(q(tag, r, detail='; '.join(problems[:3])))
     if problems:
-        kind = 'listing-order' if any('listing order' in p for p in problems) else ('NANTS' if any('NANTS' in p for p in problems) else ('readers' if any('get_blocks_in_file' in p or 'reader' in p for p in problems) else 'framing'))
+        kind = 'raise' if any('record raised' in p for p in problems) else 'user-card' if any('user card' in p for p in problems) else 'listing-order' if any('listing order' in p for p in problems) else ('NANTS' if any('NANTS' in p for p in problems) else ('readers' if any('get_blocks_in_file' in p or 'reader' in p for p in problems) else 'framing'))
         recs.append(cex(f'C04:record:{kind}', '; '.join(problems[:3]), pl, name=tag))
     return recs
 
@@ -463,10 +490,8 @@ def replay_record(p):
         st.add_noise(0, 1)
     be = bk.RawVoltageBackend(src, qz.RealQuantizer(), pf.PolyphaseFilterbank(num_taps=2, num_branches=4), qz.ComplexQuantizer(), start_chan=0, num_chans=2,
                               block_size=2 * 2 * nant * 2 * 4 * 64, blocks_per_file=bpf, num_subblocks=1)
-    user = {f'USR{i:02d}': (i if i % 3 else f'v{i}') for i in range(p['k_extra'])}
-    user.update({'NBITS': 2, 'NANTS': 5, 'PKTIDX': 1000})
-    if p['directio'] is not None:
-        user['DIRECTIO'] = p['directio']
+    user = user_cards(p['k_extra'], p['directio'], p['template'])
+    user_copy = dict(user)
     d = tempfile.mkdtemp(prefix='c04_', dir='/var/tmp')
     msgs = []
     try:
@@ -487,6 +512,9 @@ def replay_record(p):
                 msgs.append(f"get_blocks_in_file({fn}) = {nb}, file holds {want_nb}")
             if int(blocks[0].get('NANTS', 1)) != nant or int(blocks[0]['NBITS']) != 8:
                 msgs.append(f"header NANTS={blocks[0].get('NANTS')} NBITS={blocks[0]['NBITS']} for {nant} antenna(s), 8 bits")
+            for k, v in kept_cards(user_copy).items():
+                if blocks[0].get(k) != card_text(v):
+                    msgs.append(f"user card {k}={v!r} not preserved: file has {blocks[0].get(k)!r}")
             if be.block_size % 512 == 0 and str(p['directio']) in ('None', '0', '1'):
                 g = GuppiRaw(os.path.join(d, fn))
                 cnt = 0
@@ -549,6 +577,8 @@ def main():
             jobs.append(('job_record', (k, directio, 6, 6, 1, False)))
     for (nblocks, bpf) in ((1, 1), (3, 1), (3, 3), (2, 3), (5, 2)):
         jobs.append(('job_record', (4, 1, nblocks, bpf, 1, True)))
+        jobs.append(('job_record', (2, 0, nblocks, bpf, 1, True)))
+        jobs.append(('job_record', (3, None, nblocks, bpf, 1, True)))
         jobs.append(('job_record', (17, 0, nblocks, bpf, 2, False)))
     for nant in (1, 2):
         jobs.append(('job_config_fields', (nant,)))
